@@ -244,6 +244,10 @@ class ndpoly(numpy.ndarray):  # pylint: disable=invalid-name
             ufunc = ACCUMULATE_MAPPINGS[ufunc]
         elif method != "__call__":
             raise FeatureNotSupported(f"Method '{method}' not supported.")
+        if method in ("reduce", "accumulate") and len(inputs) < 2:
+            # ``ufunc.reduce`` and ``ufunc.accumulate`` work along the first
+            # axis by default, unlike ``sum``/``prod``/``cumsum``.
+            kwargs.setdefault("axis", 0)
         if ufunc not in numpoly.UFUNC_COLLECTION:
             raise FeatureNotSupported(f"ufunc '{ufunc}' not supported.")
         return numpoly.UFUNC_COLLECTION[ufunc](*inputs, **kwargs)
